@@ -7,8 +7,25 @@ AFTER = {   # changes first missed (by the quick tier or entirely), then caught 
  'C06-2': ('missed by quick, caught by thorough', 'C06: identity-default scenario (sparse operand whose default is the identity of add/sub/mul/div/maximum/logaddexp)', 'quick'),
  'C13-1': ('missed by quick, caught by thorough', 'C13: rtol = 2 added to the tolerance alphabet (rtol >= 1 makes the scaling by |other| decisive next to a zero default)', 'quick'),
  'C18-2': ('missed by quick and thorough', 'C18: every grammar must stay == to a copy taken before the first query (sees rule-table entries the accessors do not show)', 'quick'),
- 'C09-2': ('missed by quick, caught by thorough', 'C09: sparse-diagonal block scenario (few diagonal, many off-diagonal blocks)', 'quick'),
  'C03-1': ('missed by quick, caught by thorough', 'C03: dead-rule-first scenario (X -> D ..., D -> X D injected in front of X\'s productive rules)', 'quick'),
+ # ---- round 2
+ 'C02-3': ('missed by quick and thorough', 'C02: tol = 0 added to the tolerance alphabet (iterate until nothing changes; bound = rounding slack)', 'quick'),
+ 'C06-3': ('missed by quick and thorough', 'C06: NaN defaults generated; NaN-default scenario (one sparse operand with default NaN, either order, same-pattern twin)', 'quick'),
+ 'C06-4': ('missed by quick and thorough', 'C06: fractional defaults generated; narrowing-conversion scenario (to(int64) of a tensor with a fractional default, then a scalar operation on the result)', 'quick'),
+ 'C08-3': ('missed by quick and thorough', 'C08: operands of different ndim (the lower-ndim operand on either side is broadcast), up to 3 dims', 'quick'),
+ 'C08-4': ('missed by quick, caught by thorough', 'C08: same-pattern pairs (twin operand with other values and default) so that off-pattern elements come from the two defaults only', 'quick'),
+ 'C09-3': ('missed by quick and thorough', 'C09: b built on some of a\'s PhysicalAxis objects; correlated-axes scenario over product types of equal atoms', 'quick'),
+ 'C09-2': ('missed by quick, caught by thorough (round 1: sparse-diagonal scenario made quick catch it, later generator changes lost it again)', 'C09: exhaustive enumeration of all 2^9 present/absent patterns of a 3x3 block system x transpose x {Real,Bool}', 'quick'),
+ 'C11-3': ('missed by C11 quick and thorough (caught by C03 quick unchanged)', 'C11: dead-rule injection shared with C03 (gen_fgg.inject_dead_rule)', 'quick'),
+ 'C12-1': ('caught by quick in round 1 by chance; lost after round-2 generator changes', 'C12: dead-rule injection', 'quick'),
+ 'C12-3': ('missed by quick, caught by thorough', 'C12: nonlinear-tail scenario (X -> X X ... t with a terminal used nowhere else after the nonterminal edges)', 'quick'),
+ 'C12-4': ('missed by quick, caught by thorough', 'C12: bottom-up construction in the presentation transform (provisional start symbol, real one assigned after the rules)', 'quick'),
+ 'C14-4': ('missed by quick and thorough', 'C14: weight specifications written with JSON integer literals, fractional default 0.5', 'quick'),
+ 'C17-4': ('missed by quick and thorough', 'C17: terminal conflict placed in a rule whose skeleton exists only in g2, next to a harmless same-name pair that comes first in g1\'s label order', 'quick'),
+ 'C18-4': ('missed by quick and thorough', 'C18: viterbi also asked on the Log-semiring grammar whose weights require gradients; sum_product results carry requires_grad', 'quick'),
+ 'C19-4': ('missed by quick and thorough', 'C19: HRGs with an edit history (nonterminal edge added to a right-hand side and removed again, before or after add_rule)', 'quick'),
+ 'C20-3': ('missed by quick and thorough', 'C20: node labels repeated in the edge label\'s type, wrong domain at any occurrence', 'quick'),
+ 'C20-4': ('missed by quick and thorough', 'C20: the list a FiniteDomain was built from is mutated afterwards', 'quick'),
  'C20-1': ('(strengthened before the first evaluation, after reading the sub-agent\'s report)', 'C20: permuted / equal / prefix copies of a domain in the equality clause', 'quick'),
 }
 for d in sorted(glob.glob(os.path.join(V, 'seeded', '*'))):
